@@ -27,6 +27,7 @@
 #include <random>
 #include <chrono>
 #include <thread>
+#include <stdexcept>
 
 /// DataSketches namespace
 namespace datasketches {
@@ -97,6 +98,22 @@ static inline T read(std::istream& is) {
 template<typename T>
 static inline void read(std::istream& is, T* ptr, size_t size_bytes) {
   is.read(reinterpret_cast<char*>(ptr), size_bytes);
+}
+
+// reads num values into the vector in bounded chunks, so that a count the stream cannot back
+// fails (throws) before a large allocation is made
+template<typename Vector>
+static inline void read_in_chunks(std::istream& is, Vector& vec, size_t num) {
+  using T = typename Vector::value_type;
+  const size_t chunk = (sizeof(T) < (1 << 16)) ? (1 << 16) / sizeof(T) : 1; // 64 KB at a time
+  vec.clear();
+  for (size_t done = 0; done < num; ) {
+    const size_t n = (num - done < chunk) ? num - done : chunk;
+    vec.resize(done + n);
+    is.read(reinterpret_cast<char*>(vec.data() + done), n * sizeof(T));
+    if (!is.good()) throw std::runtime_error("error reading from std::istream");
+    done += n;
+  }
 }
 
 template<typename T>
